@@ -6,7 +6,7 @@ import ast
 from ..report import rule
 from ..model import norm, NotConst, calls_in, stores_in, ShapeError, AnchorMissing, is_self_attr
 from ..paths import enumerate_paths, facts_at, walk_shallow, enclosing_stmt, enclosing_loops, statements_before
-from ..guards import Evaluator, atom_texts, atoms_of_facts
+from ..guards import Evaluator, atom_texts, atoms_of_facts, conjuncts
 from .common import where, path_nodes, same_function, grid, feasible
 from .c08 import _addr_types
 
@@ -165,6 +165,16 @@ def r2(ctx):
                 payload = norm(ctor.args[0]) if ctor is not None and ctor.args and isinstance(ctor.args[0], ast.Name) else None
                 apps = [y for y in calls_in(h) if isinstance(y.func, ast.Attribute) and y.func.attr == "append" and norm(y.func.value) == payload]
                 ok = payload is not None and bool(apps) and all(not_arrival(y) for y in apps)
+                if payload is not None and not apps:
+                    # ... or built by a comprehension whose filter excludes the arrival adapter
+                    for st in walk_shallow(h):
+                        if isinstance(st, ast.Assign) and norm(st.targets[0]) == payload and isinstance(st.value, ast.ListComp):
+                            for g in st.value.generators:
+                                for cnd in g.ifs:
+                                    for at_, pol in conjuncts(cnd, True):
+                                        if isinstance(at_, ast.Compare) and len(at_.ops) == 1 and isinstance(at_.ops[0], (ast.Is, ast.IsNot)) \
+                                                and a in (norm(at_.left), norm(at_.comparators[0])) and (isinstance(at_.ops[0], ast.Is) != pol):
+                                            ok = True
             ctx.check("NSE.WhoIsRouterToNetwork:answer#%d:not-through-asking-network" % k, ok, where(m, x),
                       "I-Am-Router-To-Network is answered although the network may be reached through the adapter the question came from: the asker then sends its traffic to this router, which sends it straight back")
     if k < 3:
